@@ -162,6 +162,17 @@ Proof.
   revert i. induction l as [|y l IH]; intros i; destruct i; cbn; auto.
 Qed.
 
+Lemma nth_error_set_nth_other {A} (l : list A) i j x : i <> j -> nth_error (set_nth i x l) j = nth_error l j.
+Proof.
+  revert i j. induction l as [|y l IH]; intros i j Hne; destruct i, j; cbn; auto; try congruence.
+Qed.
+
+Lemma env_get_map (f : eval -> eval) k e :
+  env_get k (map (fun kv => (fst kv, f (snd kv))) e) = option_map f (env_get k e).
+Proof.
+  induction e as [|[k0 v0] e IH]; cbn; auto. destruct (str_eqb k0 k); auto.
+Qed.
+
 Lemma nth_error_app_length {A} (l : list A) x : nth_error (l ++ [x]) (List.length l) = Some x.
 Proof. induction l; cbn; auto. Qed.
 
